@@ -61,6 +61,8 @@ def run(ctx: Ctx):
         "the clamp where(x < eps, eps, x) / clip(x, a_min=eps) is evaluated as x; proximal_operator is taken as unit-preserving",
     )
     ctx.guarded(unit_consistent, ctx)
+    res.rule("MUST-SOLVE", "active_set_nnls (iteration budget >= 1): every path to a return passes through a solve of the passive-set system -- no shortcut returns a warm start or an intermediate iterate that was never made stationary on its positive entries", floor=1)
+    ctx.guarded(must_solve, ctx)
     from .affine import block_independent
 
     res.rule("BLOCK-INDEPENDENT", "affine-form dependence analysis of the HALS row update: after cancellation the new row k does not depend on the old row k (coefficient 0 as a rational function of UtU[k, k] and the coefficients), for every combination of the optional sparsity / ridge coefficients -- the exact coordinate minimiser is a function of the other rows only", floor=4)
@@ -75,3 +77,75 @@ def unit_consistent(ctx: Ctx):
         "M = unit of UtM, U = unit of UtU, a solution has unit M U^(-1)",
         "the update is not invariant under rescaling the design, so its fixed point is not the least-squares solution for every input",
     )
+
+
+# ---------------------------------------------------------------------------------
+# MUST-SOLVE: every returned active-set solution went through a passive-set solve
+# ---------------------------------------------------------------------------------
+class _SolveRule:
+    """state = (a passive-set solve has been executed on this path, the iteration loop was entered)"""
+
+    def __init__(self, loop_line):
+        self.loop_line = loop_line
+
+    def init_state(self):
+        return (False, False)
+
+    def transfer(self, node, st, ex):
+        import ast as _ast
+
+        from ..common import call_name as _cn
+
+        solved, looped = st
+        a = node.ast
+        if a is None:
+            return st
+        if node.kind == "return" and not solved:
+            ex.report(("MUST-SOLVE", f"line {getattr(a, 'lineno', 0)}"), "this return is reached on a path that never solved the least-squares problem restricted to the passive set: the value returned there (a warm start, or an intermediate iterate) has not been made stationary on its positive entries, so it is not a KKT point in general", node)
+        if node.kind in ("stmt", "test", "return", "with"):
+            scan = a.test if node.kind == "test" and hasattr(a, "test") else a
+            for c in _ast.walk(scan):
+                if isinstance(c, _ast.Call) and _cn(c) in ("solve", "lstsq"):
+                    solved = True
+        return (solved, looped)
+
+    def decide_for(self, node, st, ex):
+        # the iteration budget is at least one ("run to convergence"): the outer loop is entered
+        if getattr(node.ast, "lineno", None) == self.loop_line and not st[1]:
+            return "iter"
+        return None
+
+    def edge(self, node, label, st, ex):
+        if node.kind == "for" and getattr(node.ast, "lineno", None) == self.loop_line and label == "iter":
+            return (st[0], True)
+        return st
+
+
+def must_solve(ctx: Ctx):
+    import ast as _ast
+
+    from ..cfg import build_cfg
+    from ..explore import Explorer
+    from ..model import AnalysisError as _AE, own_scope_nodes
+
+    f = ctx.repo.func("tensorly.solvers.nnls.active_set_nnls")
+    loops = [n for n in f.node.body if isinstance(n, _ast.For)]
+    if len(loops) != 1:
+        raise _AE("MUST-SOLVE: active_set_nnls no longer has exactly one top-level iteration loop; cannot decide")
+    solves = [c for c in own_scope_nodes(f.node) if isinstance(c, _ast.Call) and call_name_(c) in ("solve", "lstsq")]
+    if not solves:
+        raise _AE("MUST-SOLVE: active_set_nnls contains no passive-set solve any more; cannot decide")
+    g = build_cfg(f.node, f.qname)
+    ex = Explorer(g, _SolveRule(loops[0].lineno), track="corr").run()
+    rets = [r for r in own_scope_nodes(f.node) if isinstance(r, _ast.Return)]
+    ctx.res.instance("MUST-SOLVE", f"{f.qname}: {len(rets)} return(s), {len(solves)} solve site(s)", sample={"states": ex.states, "paths": ex.paths_to_exit, "truncated": ex.truncated})
+    if ex.truncated:
+        raise _AE("MUST-SOLVE: state budget exceeded; cannot decide")
+    for v in ex.violations.values():
+        ctx.finding("MUST-SOLVE", f, v.node.ast if v.node is not None else f.node, v.message, construct=f"active_set_nnls: return without a passive-set solve ({v.key[1]})", path=v.path)
+
+
+def call_name_(c):
+    from ..common import call_name as _cn
+
+    return _cn(c)
